@@ -45,8 +45,9 @@ func c12Alphabets() []*c12Sys {
 			{"2.1.0", "beta,next", 50, false},
 			{"3.0.0-alpha", "latest", 60, true},
 			{"3.0.0-beta", "", 61, true},
-			{"not-a-version", "", -1, false},
+			{"not-a-version", "canary", -1, false},
 			{"beta", "", -1, false},
+			{"nightly", "latest,canary", -1, false},
 		},
 		sat: map[string][]string{
 			"*":              {"0.9.0", "1.0.0", "1.0.0+build", "v1.0.0", "1.2.0", "1.5.0", "2.0.0", "2.1.0"},
@@ -61,7 +62,7 @@ func c12Alphabets() []*c12Sys {
 			">=3.0.0-0":      {"3.0.0-alpha", "3.0.0-beta"},
 			"4.x":            {},
 		},
-		nonRange: []string{"latest", "beta", "next", "not-a-version", "nope", "latest-1", "beta,next", "stable,latest"},
+		nonRange: []string{"latest", "beta", "next", "not-a-version", "nope", "latest-1", "beta,next", "stable,latest", "canary", "nightly"},
 	}
 	mvn := &c12Sys{name: "Maven", sys: resolve.Maven,
 		recs: []c12Rec{
